@@ -47,6 +47,12 @@ class ScoreCache(StructureScore):
         expected = list(parents)
         return self.base_scorer.local_score(variable, expected)
 
+    def structure_prior(self, model):
+        return self.base_scorer.structure_prior(model)
+
+    def structure_prior_ratio(self, operation):
+        return self.base_scorer.structure_prior_ratio(operation)
+
 
 # link fields
 _PREV, _NEXT, _KEY, _VALUE = 0, 1, 2, 3
